@@ -2,7 +2,7 @@
    place_ops.go, place_set.go, place_set_value.go, place_shifts.go by translators/tr_golite.
    Compiled on every run in build/C02, after the Gen_<file>.v tables (-Q build/C02 Gen). *)
 From Coq Require Import ZArith List Bool.
-From Verif Require Import Common.GoInt Common.GoStr GoLite.Syntax GoLite.Sem C01.Model C02.Model C02.ProofA C02.ProofB.
+From Verif Require Import Common.GoInt Common.GoStr GoLite.Syntax GoLite.Sem C01.Model C02.Model C02.ProofA C02.ProofB C02.ProofC.
 From Gen Require Gen_var_ops Gen_var_set Gen_var_set_value Gen_var_shifts Gen_place_ops Gen_place_set Gen_place_set_value Gen_place_shifts.
 Import ListNotations.
 Open Scope Z_scope.
@@ -59,15 +59,34 @@ Proof.
 Qed.
 Print Assumptions C02_set_table_sound.
 
-(* every in-scope row is one of the three template families, with a valid (operator, kind, class) combination.
-   x /= +-2^n (varQuoPow2): the row equals the shift template (n := *addr; if n < 0 { n += y-1 }; *addr = n >> shift,
-   negated for a negative divisor; unsigned: >>=) whose arithmetic is C01_quoPow2_arith; the statement-level soundness of
-   that template is tied by the harness (differential + regenerated-row evaluation), not by a theorem: _partial *)
-Theorem C02_var_pow2_table_uniform_partial :
-  forall e, In e var_tables -> in_scope e = true ->
-    exists t, classify e = Some t /\ tmpl_valid t = true /\ closure_of e = closure_of_tmpl t.
-Proof. exact row_sound. Qed.
-Print Assumptions C02_var_pow2_table_uniform_partial.
+(* EVERY in-scope row of var_ops.go, var_set.go, var_shifts.go (x op= e, x <<>>= n, x = e, x /= +-2^n as shift):
+   for all inputs, frames and states the closure performs the statement specified by spec_tmpl *)
+Theorem C02_var_tables_sound :
+  forall F fbin fcmp fun1 fconv fpart fofbits ftobits e, In e var_tables -> in_scope e = true ->
+    exists t, classify e = Some t /\ tmpl_valid t = true /\
+      forall (i : inputs F) p s fuel, inputs_ok F t i -> hops_ok (tmpl_hops t) (in_upn F i) fuel ->
+        run_stmt F fbin fcmp fun1 fconv fpart fofbits ftobits fuel (roots_of F t i) (closure_of e) p s
+        = spec_tmpl F fbin fcmp fconv fofbits ftobits t i p s.
+Proof.
+  intros F fbin fcmp fun1 fconv fpart fofbits ftobits e Hin Hsc.
+  pose proof (proj1 (forallb_forall row_ok var_tables) tables_ok e Hin) as H.
+  unfold row_ok in H. rewrite Hsc in H. apply entry_ok_sound. exact H.
+Qed.
+Print Assumptions C02_var_tables_sound.
+
+(* x /= +-2^n : the rows of varQuoPow2 *)
+Theorem C02_var_pow2_table_sound :
+  forall F fbin fcmp fun1 fconv fpart fofbits ftobits e, In e var_tables -> in_scope e = true ->
+    forall k h negy, classify e = Some (TVarQuoPow2 k h negy) ->
+    forall (i : inputs F) p s fuel, inputs_ok F (TVarQuoPow2 k h negy) i -> hops_ok h (in_upn F i) fuel ->
+      run_stmt F fbin fcmp fun1 fconv fpart fofbits ftobits fuel (roots_of F (TVarQuoPow2 k h negy) i) (closure_of e) p s
+      = spec_tmpl F fbin fcmp fconv fofbits ftobits (TVarQuoPow2 k h negy) i p s.
+Proof.
+  intros F fbin fcmp fun1 fconv fpart fofbits ftobits e Hin Hsc k h negy Hcl i p s fuel Hi Hh.
+  destruct (row_sound e Hin Hsc) as (t & Ht & Hv & Hc). rewrite Hcl in Ht. injection Ht as <-.
+  rewrite Hc. apply var_quopow2_sound; assumption.
+Qed.
+Print Assumptions C02_var_pow2_table_sound.
 
 (* ---- non-variable places: place_ops.go, place_set.go, place_shifts.go (pointer, element, field, map entry) *)
 Definition place_tables : list entry := Gen_place_ops.table ++ Gen_place_set.table ++ Gen_place_shifts.table.
